@@ -9,6 +9,8 @@ package token
 //   * mainnet : network id 1 genesis, height 20 000 000 (all V2 methods registered, no uint64 wrapping),
 //               block times on both sides of the ONT-holder unbound deadline, so that ONT transfers
 //               approve (before) or really move (after) accrued ONG out of the ONT contract's pool.
+// Every call arrives through a generated invocation stack (0..4 calling-contract contexts above the token
+// contract); the authorisation model is {tx signers} U {immediate caller}, never a deeper ancestor.
 // Oracle = invariants over RAW storage decoded by the harness's own storage-item parser
 // (helpers_test.go); there is no re-implementation of the token logic.
 
@@ -30,6 +32,9 @@ import (
 	"github.com/ontio/ontology/common/constants"
 	"github.com/ontio/ontology/core/genesis"
 	cstates "github.com/ontio/ontology/core/states"
+	"github.com/ontio/ontology/core/types"
+	"github.com/ontio/ontology/smartcontract"
+	sctx "github.com/ontio/ontology/smartcontract/context"
 	"github.com/ontio/ontology/smartcontract/service/native/ont"
 	nutils "github.com/ontio/ontology/smartcontract/service/native/utils"
 	"pgregory.net/rapid"
@@ -55,9 +60,12 @@ type c06Env struct {
 	prof     string
 	ch       *fix.Chain
 	users    []common.Address
+	ctrs     []common.Address // generic (non-native) contract accounts: hold balances/allowances, witness only as the immediate caller
+	parties  []common.Address // users + ctrs: everybody who can witness a call one way or the other
 	all      []common.Address
 	label    map[common.Address]string
 	isUser   map[common.Address]bool
+	isCtr    map[common.Address]bool
 	height   uint32
 	deadline uint32 // ONT holder unbound deadline (offset from the genesis timestamp)
 }
@@ -75,6 +83,64 @@ type c06Call struct {
 	Sender  common.Address
 	Signers []common.Address
 	Mode    string
+	// Stack is the invocation stack ABOVE the token contract when the call arrives: Stack[0] is the entry
+	// context of the transaction, Stack[len-1] the immediate caller of the token contract. Empty = the
+	// sandbox's bare call (no calling context at all).
+	Stack  []common.Address
+	Defect string
+	// generation-time wishes resolved by finishStack
+	wantTop, wantAnc *common.Address
+}
+
+// caller returns the immediate calling contract, if any.
+func (c *c06Call) caller() (common.Address, bool) {
+	if len(c.Stack) == 0 {
+		return common.Address{}, false
+	}
+	return c.Stack[len(c.Stack)-1], true
+}
+
+// witnesses is the model of CheckWitness: exactly {transaction signers} U {immediate calling contract}.
+func (c *c06Call) witnesses() map[common.Address]bool {
+	w := map[common.Address]bool{}
+	for _, a := range c.Signers {
+		w[a] = true
+	}
+	if top, ok := c.caller(); ok {
+		w[top] = true
+	}
+	return w
+}
+
+// ancestorOnly: a is on the invocation stack, but only below the immediate caller, and did not sign.
+func (c *c06Call) ancestorOnly(a common.Address) bool {
+	if c.witnesses()[a] {
+		return false
+	}
+	for i := 0; i+1 < len(c.Stack); i++ {
+		if c.Stack[i] == a {
+			return true
+		}
+	}
+	return false
+}
+
+// principals lists the accounts whose witness the call needs in order to take effect.
+func (c *c06Call) principals() []common.Address {
+	var out []common.Address
+	switch c06Family(c.Op) {
+	case "transfer":
+		for _, s := range c.St {
+			if s.units(c06IsV2(c.Op)).Sign() > 0 {
+				out = addSigner(out, s.From)
+			}
+		}
+	case "approve":
+		out = append(out, c.St[0].From)
+	case "transferFrom":
+		out = append(out, c.Sender)
+	}
+	return out
 }
 
 func c06IsV2(op string) bool       { return strings.HasSuffix(op, "V2") }
@@ -105,13 +171,20 @@ func newC06Env(t *testing.T, prof string, netID, height uint32) *c06Env {
 	}
 	t.Cleanup(ch.Close)
 	e := &c06Env{prof: prof, ch: ch, height: height, deadline: config.GetOntHolderUnboundDeadline(),
-		label: map[common.Address]string{}, isUser: map[common.Address]bool{}}
+		label: map[common.Address]string{}, isUser: map[common.Address]bool{}, isCtr: map[common.Address]bool{}}
 	for i, k := range fix.P256(5) {
 		e.users = append(e.users, k.Address)
 		e.isUser[k.Address] = true
 		e.label[k.Address] = fmt.Sprintf("u%d", i)
 	}
-	e.all = append(append([]common.Address{}, e.users...), nutils.OntContractAddress, nutils.OngContractAddress, nutils.GovernanceContractAddress)
+	for i := 0; i < 4; i++ {
+		a := common.AddressFromVmCode([]byte(fmt.Sprintf("verif C06 generic contract %d", i)))
+		e.ctrs = append(e.ctrs, a)
+		e.isCtr[a] = true
+		e.label[a] = "c" + string(rune('A'+i))
+	}
+	e.parties = append(append([]common.Address{}, e.users...), e.ctrs...)
+	e.all = append(append([]common.Address{}, e.parties...), nutils.OntContractAddress, nutils.OngContractAddress, nutils.GovernanceContractAddress)
 	e.label[nutils.OntContractAddress], e.label[nutils.OngContractAddress], e.label[nutils.GovernanceContractAddress] = "ONTc", "ONGc", "GOVc"
 	return e
 }
@@ -153,7 +226,47 @@ func (e *c06Env) describe(c *c06Call) string {
 		sb.WriteString(e.label[a])
 	}
 	sb.WriteByte('}')
+	if len(c.Stack) > 0 {
+		sb.WriteString("via[")
+		for i, a := range c.Stack {
+			if i > 0 {
+				sb.WriteByte('>')
+			}
+			sb.WriteString(e.label[a])
+		}
+		sb.WriteByte(']')
+	}
 	return sb.String()
+}
+
+// invoke is fix.Native.CallFrom with a whole invocation stack instead of at most one calling context: every
+// ancestor is pushed as a context (bottom first) before the native service is created, the way the native
+// testsuite of the repository simulates nested contract calls; NativeCall then pushes the token contract itself.
+// One call = one transaction: commit on success, reset on error or panic.
+func (c *c06Call) invoke(n *fix.Native) (res []byte, err error) {
+	defer func() {
+		if r := recover(); r != nil {
+			n.Cache.Reset()
+			err = fmt.Errorf("PANIC: %v", r)
+		}
+	}()
+	tx := &types.Transaction{SignedAddr: append([]common.Address{}, c.Signers...)}
+	sc := smartcontract.SmartContract{Config: &smartcontract.Config{Time: n.Time, Height: n.Height, Tx: tx},
+		CacheDB: n.Cache, Store: n.LS, Gas: math.MaxUint64 / 2}
+	for _, a := range c.Stack {
+		sc.PushContext(&sctx.Context{ContractAddress: a})
+	}
+	svc, e := sc.NewNativeService()
+	if e != nil {
+		return nil, e
+	}
+	r, e := svc.NativeCall(c06Tokens[c.Tok], c.Op, c.encode())
+	if e != nil {
+		n.Cache.Reset()
+		return nil, e
+	}
+	n.Cache.Commit()
+	return r, nil
 }
 
 func (c *c06Call) encode() []byte {
@@ -266,16 +379,118 @@ func addSigner(s []common.Address, a common.Address) []common.Address {
 	return append(s, a)
 }
 
+// uni draws a (nearly) uniform integer in [0,n), n <= 16, from fair coin flips (rapid's integer generators
+// favour small values).
+func uni(t *rapid.T, n int, label string) int {
+	v := 0
+	for i := 0; i < 6; i++ {
+		v <<= 1
+		if rapid.Bool().Draw(t, label) {
+			v |= 1
+		}
+	}
+	return v % n
+}
+
+// witness makes a witness the call the only way it can: a user signs the transaction, a contract account
+// has to be the immediate caller (at most one contract account per call can be a witness).
+func (e *c06Env) witness(c *c06Call, a common.Address) {
+	if e.isCtr[a] {
+		if c.wantTop == nil {
+			c.wantTop = &a
+		}
+		return
+	}
+	c.Signers = addSigner(c.Signers, a)
+}
+
+// unwitness withdraws a's witness. A contract account is then either absent from the invocation stack or
+// - the class a stack-walking CheckWitness would wrongly accept - still on it, but only as a NON-immediate ancestor.
+func (e *c06Env) unwitness(t *rapid.T, c *c06Call, a common.Address) {
+	var keep []common.Address
+	for _, s := range c.Signers {
+		if s != a {
+			keep = append(keep, s)
+		}
+	}
+	c.Signers = keep
+	if c.wantTop != nil && *c.wantTop == a {
+		c.wantTop = nil
+	}
+	if e.isCtr[a] && uni(t, 4, "demote-to-ancestor") != 0 {
+		c.wantAnc = &a
+		c.Defect += "(ancestor-only)"
+	}
+}
+
+// finishStack draws the invocation stack above the token contract: depth 0 (bare call, half of the calls that
+// do not need a caller) or 1..4 generic contract accounts; wantTop ends up as the immediate caller, wantAnc
+// somewhere below the immediate caller (and is not the immediate caller).
+func (e *c06Env) finishStack(t *rapid.T, c *c06Call) {
+	if c.wantTop != nil && c.wantAnc != nil && *c.wantTop == *c.wantAnc {
+		c.wantAnc = nil
+	}
+	pick := func(label string, not *common.Address) common.Address {
+		for {
+			a := e.ctrs[uni(t, len(e.ctrs), label)]
+			if not == nil || a != *not {
+				return a
+			}
+		}
+	}
+	depth := 0
+	switch {
+	case c.wantAnc != nil:
+		depth = 2 + uni(t, 3, "depth")
+	case c.wantTop != nil:
+		depth = 1 + uni(t, 4, "depth")
+	case uni(t, 2, "called-by-contract") == 1:
+		depth = 1 + uni(t, 4, "depth")
+	}
+	c.Stack = nil
+	for i := 0; i < depth; i++ {
+		if i == depth-1 {
+			if c.wantTop != nil {
+				c.Stack = append(c.Stack, *c.wantTop)
+			} else {
+				c.Stack = append(c.Stack, pick("caller", c.wantAnc))
+			}
+		} else {
+			c.Stack = append(c.Stack, pick("ancestor", nil))
+		}
+	}
+	if c.wantAnc != nil {
+		c.Stack[uni(t, depth-1, "ancestor-pos")] = *c.wantAnc
+	}
+}
+
 // genCall draws one call. ~65 % valid by construction from the observed state, ~15 % valid with exactly one
 // defect (missing witness, one unit too much, wrong spender; for multi-state transfers in the LAST state, so
-// that earlier states were already applied when the call is rejected), ~20 % arbitrary.
+// that earlier states were already applied when the call is rejected), ~20 % arbitrary. Accounts are 5 users
+// (witness by signature) and 4 generic contract accounts (witness only as the immediate caller); every call
+// gets an invocation stack of depth 0..4.
 func (e *c06Env) genCall(t *rapid.T, st [2]*tokenState) *c06Call {
+	c := e.genCall0(t, st)
+	e.finishStack(t, c)
+	if c.Mode == "arbitrary" && len(c.Stack) > 0 && rapid.Bool().Draw(t, "caller-honest") {
+		top, _ := c.caller()
+		if c06Family(c.Op) == "transferFrom" {
+			c.Sender = top
+		} else if len(c.St) > 0 {
+			c.St[0].From = top
+		}
+	}
+	return c
+}
+
+func (e *c06Env) genCall0(t *rapid.T, st [2]*tokenState) *c06Call {
 	c := &c06Call{Tok: rapid.IntRange(0, 1).Draw(t, "token"), Op: rapid.SampledFrom(c06Ops).Draw(t, "op")}
 	v2 := c06IsV2(c.Op)
 	ts := st[c.Tok]
 	m := rapid.IntRange(0, 99).Draw(t, "mode")
 	anyAddr := rapid.SampledFrom(e.all)
 	userAddr := rapid.SampledFrom(e.users)
+	partyAddr := rapid.SampledFrom(e.parties)
 	if m >= 80 {
 		c.Mode = "arbitrary"
 		n := 1
@@ -305,6 +520,11 @@ func (e *c06Env) genCall(t *rapid.T, st [2]*tokenState) *c06Call {
 	if m >= 65 {
 		c.Mode = "near-valid"
 		defect = rapid.SampledFrom([]string{"no-witness", "too-much", "wrong-party"}).Draw(t, "defect")
+		c.Defect = defect
+	}
+	need := big.NewInt(1)
+	if !v2 {
+		need = unit9
 	}
 
 	if c06Family(c.Op) == "transferFrom" {
@@ -315,11 +535,7 @@ func (e *c06Env) genCall(t *rapid.T, st [2]*tokenState) *c06Call {
 			if b := ts.bal(p[0]); b.Cmp(lim) < 0 {
 				lim = b
 			}
-			need := big.NewInt(1)
-			if !v2 {
-				need = unit9
-			}
-			if e.isUser[p[1]] && lim.Cmp(need) >= 0 {
+			if (e.isUser[p[1]] || e.isCtr[p[1]]) && lim.Cmp(need) >= 0 {
 				pairs = append(pairs, p)
 			}
 		}
@@ -339,12 +555,12 @@ func (e *c06Env) genCall(t *rapid.T, st [2]*tokenState) *c06Call {
 			x := c06Xfer{From: p[0], To: anyAddr.Draw(t, "to")}
 			drawAmount(t, &x, v2, 1, lim, "amt")
 			c.Sender = p[1]
-			c.Signers = addSigner(c.Signers, c.Sender)
+			e.witness(c, c.Sender)
 			switch defect {
 			case "no-witness":
-				c.Signers = nil
-				if rapid.Bool().Draw(t, "owner-signs-instead") && e.isUser[x.From] && x.From != c.Sender {
-					c.Signers = []common.Address{x.From} // the owner's witness does not authorise the spender
+				e.unwitness(t, c, c.Sender)
+				if rapid.Bool().Draw(t, "owner-signs-instead") && (e.isUser[x.From] || e.isCtr[x.From]) && x.From != c.Sender {
+					e.witness(c, x.From) // the owner's witness does not authorise the spender
 				}
 			case "too-much":
 				if v2 {
@@ -353,8 +569,9 @@ func (e *c06Env) genCall(t *rapid.T, st [2]*tokenState) *c06Call {
 					x.U = new(big.Int).Div(lim, unit9).Uint64() + 1
 				}
 			case "wrong-party":
-				c.Sender = userAddr.Draw(t, "other-sender")
-				c.Signers = []common.Address{c.Sender}
+				c.Sender = partyAddr.Draw(t, "other-sender")
+				c.Signers, c.wantTop = nil, nil
+				e.witness(c, c.Sender)
 			}
 			c.St = []c06Xfer{x}
 			if rapid.IntRange(0, 3).Draw(t, "extra-signer") == 0 {
@@ -365,23 +582,19 @@ func (e *c06Env) genCall(t *rapid.T, st [2]*tokenState) *c06Call {
 	}
 
 	var holders []common.Address
-	for _, u := range e.users {
-		need := big.NewInt(1)
-		if !v2 {
-			need = unit9
-		}
+	for _, u := range e.parties {
 		if ts.bal(u).Cmp(need) >= 0 {
 			holders = append(holders, u)
 		}
 	}
 
 	if c06Family(c.Op) == "approve" {
-		x := c06Xfer{From: userAddr.Draw(t, "from"), To: anyAddr.Draw(t, "to")}
+		x := c06Xfer{From: partyAddr.Draw(t, "from"), To: anyAddr.Draw(t, "to")}
 		if len(holders) > 0 && rapid.IntRange(0, 9).Draw(t, "holder-approves") < 7 {
 			x.From = rapid.SampledFrom(holders).Draw(t, "holder")
 		}
 		if rapid.IntRange(0, 9).Draw(t, "to-user") < 7 {
-			x.To = userAddr.Draw(t, "spender")
+			x.To = partyAddr.Draw(t, "spender")
 		}
 		max := map[int]*big.Int{c06ONT: c06OntSupply, c06ONG: c06OngSupply}[c.Tok]
 		if c.Tok == c06ONG && !v2 {
@@ -394,10 +607,10 @@ func (e *c06Env) genCall(t *rapid.T, st [2]*tokenState) *c06Call {
 			max = b
 		}
 		drawAmount(t, &x, v2, 0, max, "amt")
-		c.Signers = addSigner(c.Signers, x.From)
+		e.witness(c, x.From)
 		switch defect {
 		case "no-witness":
-			c.Signers = nil
+			e.unwitness(t, c, x.From)
 		case "too-much":
 			over := map[int]*big.Int{c06ONT: c06OntSupply, c06ONG: c06OngSupply}[c.Tok]
 			if v2 {
@@ -406,7 +619,12 @@ func (e *c06Env) genCall(t *rapid.T, st [2]*tokenState) *c06Call {
 				x.U = new(big.Int).Div(over, unit9).Uint64() + 1
 			}
 		case "wrong-party":
-			c.Signers = []common.Address{x.To}
+			c.Signers, c.wantTop = nil, nil
+			if e.isCtr[x.To] {
+				e.witness(c, x.To)
+			} else {
+				c.Signers = []common.Address{x.To}
+			}
 		}
 		c.St = []c06Xfer{x}
 		if rapid.IntRange(0, 3).Draw(t, "extra-signer") == 0 {
@@ -430,7 +648,18 @@ func (e *c06Env) genCall(t *rapid.T, st [2]*tokenState) *c06Call {
 		remaining[h] = new(big.Int).Set(ts.bal(h))
 	}
 	for i := 0; i < n; i++ {
-		x := c06Xfer{From: rapid.SampledFrom(holders).Draw(t, "from"), To: anyAddr.Draw(t, "to")}
+		// at most one contract account can witness (as the immediate caller): once one is a source, the other
+		// contract accounts are no candidates any more
+		cands := holders
+		if c.wantTop != nil {
+			cands = nil
+			for _, h := range holders {
+				if !e.isCtr[h] || h == *c.wantTop {
+					cands = append(cands, h)
+				}
+			}
+		}
+		x := c06Xfer{From: rapid.SampledFrom(cands).Draw(t, "from"), To: anyAddr.Draw(t, "to")}
 		lo := int64(0)
 		if i == 0 {
 			lo = 1 // the first state really moves something, so a later rejection has something to undo
@@ -441,19 +670,13 @@ func (e *c06Env) genCall(t *rapid.T, st [2]*tokenState) *c06Call {
 		u := x.units(v2)
 		remaining[x.From].Sub(remaining[x.From], u)
 		remaining[x.To].Add(remaining[x.To], u)
-		c.Signers = addSigner(c.Signers, x.From)
+		e.witness(c, x.From)
 		c.St = append(c.St, x)
 	}
 	last := &c.St[len(c.St)-1]
 	switch defect {
 	case "no-witness":
-		var keep []common.Address
-		for _, s := range c.Signers {
-			if s != last.From {
-				keep = append(keep, s)
-			}
-		}
-		c.Signers = keep
+		e.unwitness(t, c, last.From)
 		if last.units(v2).Sign() == 0 { // a zero state is skipped before the witness check
 			if v2 {
 				last.B = big.NewInt(1)
@@ -487,7 +710,8 @@ func (e *c06Env) genCall(t *rapid.T, st [2]*tokenState) *c06Call {
 
 type c06Outcome struct {
 	ok, partial, movedOng, panicked bool
-	tag                   string
+	callerOnly                      bool // a debit / allowance change whose only authority is the immediate calling contract
+	tag                             string
 }
 
 func (e *c06Env) check(t *rapid.T, c *c06Call, total [2]*big.Int, pre, post [2]*tokenState, res []byte, err error, at string) c06Outcome {
@@ -509,10 +733,15 @@ func (e *c06Env) check(t *rapid.T, c *c06Call, total [2]*big.Int, pre, post [2]*
 		}
 	}
 	v2 := c06IsV2(c.Op)
-	signed := map[common.Address]bool{}
+	// the model of "witnessed the call": signed the transaction, or is the contract that called the token
+	// contract directly - never a contract further down the invocation stack
+	signed := c.witnesses()
+	top, hasTop := c.caller()
+	bySig := map[common.Address]bool{}
 	for _, a := range c.Signers {
-		signed[a] = true
+		bySig[a] = true
 	}
+	callerOnly := func(a common.Address) bool { return hasTop && a == top && !bySig[a] }
 	if !out.ok {
 		for i := range c06Tokens {
 			if d := sameBalancesAndAllowances(pre[i], post[i]); d != "" {
@@ -548,7 +777,10 @@ func (e *c06Env) check(t *rapid.T, c *c06Call, total [2]*big.Int, pre, post [2]*
 			}
 			if !isFrom || !signed[a] {
 				t.Fatalf("C06: %s debited %v e-9 %s from %s, which %s; call %s", c.Op, d, c06TokName[called], e.label[a],
-					map[bool]string{true: "did not witness the call", false: "is not the source of any transfer state"}[isFrom], desc)
+					map[bool]string{true: "did not witness the call (neither a signer nor the immediate caller)", false: "is not the source of any transfer state"}[isFrom], desc)
+			}
+			if callerOnly(a) {
+				out.callerOnly = true
 			}
 		case "transferFrom":
 			s := c.St[0]
@@ -558,6 +790,9 @@ func (e *c06Env) check(t *rapid.T, c *c06Call, total [2]*big.Int, pre, post [2]*
 			if !ownerWitnessed && !spentAllowance {
 				t.Fatalf("C06: %s debited %v e-9 %s from %s: from=%s spender=%s witnessed-by-spender=%v allowance %v -> %v; call %s",
 					c.Op, d, c06TokName[called], e.label[a], e.label[s.From], e.label[c.Sender], signed[c.Sender], pa, na, desc)
+			}
+			if !ownerWitnessed && callerOnly(c.Sender) {
+				out.callerOnly = true
 			}
 		default:
 			t.Fatalf("C06: %s debited %v e-9 %s from %s; call %s", c.Op, d, c06TokName[called], e.label[a], desc)
@@ -591,6 +826,9 @@ func (e *c06Env) check(t *rapid.T, c *c06Call, total [2]*big.Int, pre, post [2]*
 		s := c.St[0]
 		switch {
 		case fam == "approve" && p == (addrPair{s.From, s.To}) && signed[s.From]:
+			if callerOnly(s.From) {
+				out.callerOnly = true
+			}
 		case fam == "transferFrom" && p == (addrPair{s.From, c.Sender}) && na.Cmp(pa) < 0 && signed[c.Sender]:
 		default:
 			t.Fatalf("C06: %s changed the %s allowance %s->%s from %v to %v without the owner's witnessed approve / the spender's transferFrom; call %s",
@@ -621,8 +859,8 @@ func (e *c06Env) check(t *rapid.T, c *c06Call, total [2]*big.Int, pre, post [2]*
 
 func c06Run(t *testing.T, prof string, netID, height uint32) {
 	ev := harn.For("C06").
-		Rule("histories of ~30 native ONT/ONG calls {transfer (0-3 states), transferV2, approve, approveV2, transferFrom, transferFromV2} among 5 accounts + the ONT/ONG/governance contract addresses on the native sandbox; ~65% of calls valid by construction from the observed raw state, ~15% valid with one defect (missing witness, one unit over balance/allowance, wrong spender, placed in the LAST transfer state), ~20% arbitrary (zero, self, over supply, uint64 max, negative / 2^200 V2 amounts, random signer sets); block time advances randomly; profiles: network id 3 @ height 100 and mainnet-id genesis @ height 20 000 000 with times on both sides of the ONT-holder unbound deadline. Non-trivial history = >=1 successful transferFrom/transferFromV2, or >=1 rejected multi-state transfer whose first state had been applicable (partial work undone); distinct by the full call list").
-		Assume("the native sandbox (fix.Native) commits the transaction cache on success and resets it on error exactly as HandleInvokeTransaction does; witnesses are injected through Transaction.SignedAddr (signature verification itself is C16's subject)").
+		Rule("histories of ~30 native ONT/ONG calls {transfer (0-3 states), transferV2, approve, approveV2, transferFrom, transferFromV2} among 5 user accounts (witness by signature) + 4 generic contract accounts (hold balances/allowances, can witness only as a calling context) + the ONT/ONG/governance contract addresses on the native sandbox; every call arrives through a generated invocation stack of depth 0 (bare call) or 1-4 contract contexts above the token contract, and the model authorises exactly {tx signers} U {IMMEDIATE calling contract}: the source of a transfer state / approve owner / transferFrom spender is a signer, the immediate caller, a NON-immediate ancestor on the stack (must be rejected) or unrelated; ~65% of calls valid by construction from the observed raw state, ~15% valid with one defect (missing witness - for a contract account: absent from the stack or demoted to a non-immediate ancestor -, one unit over balance/allowance, wrong spender, placed in the LAST transfer state), ~20% arbitrary (zero, self, over supply, uint64 max, negative / 2^200 V2 amounts, random signer sets); block time advances randomly; profiles: network id 3 @ height 100 and mainnet-id genesis @ height 20 000 000 with times on both sides of the ONT-holder unbound deadline. Non-trivial history = >=1 successful transferFrom/transferFromV2, or >=1 rejected multi-state transfer whose first state had been applicable (partial work undone); floors additionally require successful debits authorised only by the immediate caller, otherwise-valid calls whose principal is only a deeper ancestor, and every stack depth 0-4; distinct by the full call list incl. stacks").
+		Assume("the native sandbox (fix.Native) commits the transaction cache on success and resets it on error exactly as HandleInvokeTransaction does; witnesses are injected through Transaction.SignedAddr (signature verification itself is C16's subject); calling contracts are simulated by pushing their contexts on SmartContract.Contexts before the native call, as the repository's native testsuite does (a failing nested native call aborts the whole transaction in both VMs, so one call = one transaction still holds)").
 		Assume("block times are non-decreasing within a history, as on a real chain")
 	e := newC06Env(t, prof, netID, height)
 	ev.Floor("transferFrom:ok", "transferFrom", 0.05)
@@ -633,6 +871,13 @@ func c06Run(t *testing.T, prof string, netID, height uint32) {
 	ev.Floor("approveV2:ok", "approveV2", 0.20)
 	ev.Floor("transfer*:partial-reject", "transfer*", 0.01)
 	ev.Floor("history:nontrivial", "history", 0.30)
+	ev.Floor("auth:immediate-caller-only:ok", "call", 0.05)
+	ev.Floor("auth:ancestor-only:else-valid", "call", 0.002)
+	ev.Floor("history:immediate-caller-only-ok", "history", 0.30)
+	ev.Floor("history:ancestor-only-else-valid", "history", 0.05)
+	for _, d := range []string{"ctx:depth0", "ctx:depth1", "ctx:depth2", "ctx:depth3", "ctx:depth4"} {
+		ev.Floor(d, "call", 0.05)
+	}
 	if prof == "mainnet" {
 		ev.Floor("mainnet:ONT-call-ok:moved-ONG", "mainnet:ONT-call-ok", 0.03)
 		ev.Floor("mainnet:history:moved-ONG", "history", 0.30)
@@ -661,10 +906,11 @@ func c06Run(t *testing.T, prof string, netID, height uint32) {
 		var hist []string
 		nontrivial := false
 		movedOng := 0
+		callerOnlyOK, ancestorRejected := 0, 0
 		step := func(t *rapid.T, c *c06Call, dt uint32) {
 			n.Time += dt
 			pre := st
-			res, err := n.Call(c06Tokens[c.Tok], c.Op, c.encode(), c.Signers)
+			res, err := c.invoke(n)
 			post := e.scan(t, n)
 			off := n.Time - constants.GENESIS_BLOCK_TIMESTAMP
 			o := e.check(t, c, total, pre, post, res, err, fmt.Sprintf("@%d", off))
@@ -676,6 +922,29 @@ func c06Run(t *testing.T, prof string, netID, height uint32) {
 			ev.Class("mode:" + c.Mode + ":" + o.tag)
 			if o.panicked {
 				ev.Class("call:recovered-panic")
+			}
+			ev.Class("call")
+			ev.Class(fmt.Sprintf("ctx:depth%d", len(c.Stack)))
+			if o.callerOnly {
+				ev.Class("auth:immediate-caller-only:ok")
+				ev.Class("auth:immediate-caller-only:ok:" + c06Family(c.Op))
+				callerOnlyOK++
+			}
+			for _, a := range c.principals() {
+				if c.ancestorOnly(a) {
+					// the account whose witness is needed is on the invocation stack, but not as the immediate caller
+					ev.Class("auth:ancestor-only")
+					ev.Class("auth:ancestor-only:" + o.tag)
+					if strings.Contains(c.Defect, "(ancestor-only)") {
+						ev.Class("auth:ancestor-only:else-valid")
+						ev.Class("auth:ancestor-only:else-valid:" + c06Family(c.Op))
+						ancestorRejected++
+					}
+					break
+				}
+			}
+			if c.Defect != "" {
+				ev.Class("defect:" + c.Defect)
 			}
 			if c06Family(c.Op) == "transfer" {
 				ev.Class("transfer*")
@@ -706,13 +975,13 @@ func c06Run(t *testing.T, prof string, netID, height uint32) {
 				}
 			}
 		}
-		// prelude: the genesis owner funds 1-3 other accounts (valid transfers, judged like every other call)
-		for i, k := 0, rapid.IntRange(1, 3).Draw(t, "prelude"); i < k; i++ {
+		// prelude: the genesis owner funds 1-4 other accounts (users or contract accounts) (valid transfers, judged like every other call)
+		for i, k := 0, 1+uni(t, 4, "prelude"); i < k; i++ {
 			tok := rapid.IntRange(0, 1).Draw(t, "ptoken")
 			if st[tok].bal(e.users[0]).Cmp(unit9) < 0 {
 				tok = c06ONT
 			}
-			x := c06Xfer{From: e.users[0], To: e.users[rapid.IntRange(1, 4).Draw(t, "pto")]}
+			x := c06Xfer{From: e.users[0], To: e.parties[1+uni(t, len(e.parties)-1, "pto")]}
 			v2 := rapid.Bool().Draw(t, "pv2")
 			max := new(big.Int).Div(st[tok].bal(e.users[0]), big.NewInt(4))
 			if !drawAmount(t, &x, v2, 1, max, "pamt") {
@@ -737,6 +1006,12 @@ func c06Run(t *testing.T, prof string, netID, height uint32) {
 		}
 		if movedOng >= 2 {
 			ev.Class("mainnet:history:moved-ONG>=2")
+		}
+		if callerOnlyOK > 0 {
+			ev.Class("history:immediate-caller-only-ok")
+		}
+		if ancestorRejected > 0 {
+			ev.Class("history:ancestor-only-else-valid")
 		}
 		if nontrivial {
 			ev.Class("history:nontrivial")
